@@ -36,6 +36,11 @@ CONSTRUCTS = {
     "dunder_field_camel": '#[typeshare]\n#[serde(rename_all = "camelCase")]\npub struct Edge { pub __: u32 }\n',
     "nonascii_variant_camel": '#[typeshare]\n#[serde(rename_all = "camelCase")]\npub enum Edge { Écoute, Über }\n',
     "nonascii_field_pascal": '#[typeshare]\n#[serde(rename_all = "PascalCase")]\npub struct Edge { pub éa: u32 }\n',
+    # a non-ASCII letter directly before / after an upper-case letter, a digit, an underscore, under each word-splitting rule
+    "nonascii_field_snake": '#[typeshare]\n#[serde(rename_all = "snake_case")]\npub struct Edge { pub pokéBall: u32, pub Ünit: u32, pub a_é: u32 }\n',
+    "nonascii_field_kebab": '#[typeshare]\n#[serde(rename_all = "SCREAMING-KEBAB-CASE")]\npub struct Edge { pub pokéBall: u32, pub éÉé2: u32 }\n',
+    "nonascii_vfield_snake": '#[typeshare]\n#[serde(tag = "t", content = "c")]\npub enum Edge { #[serde(rename_all = "SCREAMING_SNAKE_CASE")] Sv { pokéBall: u32, éX: u32 }, U }\n',
+    "const_nonascii": '#[typeshare]\npub const pokéBall: u32 = 3;\n',
     "use_bare_crate": "use foo;\nuse bar as baz;\n#[typeshare]\npub struct Edge { pub a: u32 }\n",
     "use_glob_only": "use foo::*;\nuse self::x::*;\n#[typeshare]\npub struct Edge { pub a: Other }\n",
     "const_int": "#[typeshare]\npub const EDGE: u32 = 5;\n",
